@@ -487,16 +487,21 @@ def prefixMatches (sharded : Bool) : List PlanTarget → List (Nat × Option Nat
   | t :: ts, o :: os => obsMatches sharded t o && prefixMatches sharded ts os
   | [], _ :: _ => false
 
-/-- The requests of page `j` are the first executions' draws from `pagerPlan coord lbPlan`, for the coordinator being
-one of the targets the previous page was fetched from (the one that answered first). -/
-def pageOk (sharded : Bool) (lbPlan : List PlanTarget) (kmax : Nat) (prev : Option (List (Nat × Option Nat)))
+/-- The requests of page `j` are the first executions' draws from `pagerPlan coord lbPlan`.
+The coordinator is the target of whichever execution of the previous page answered first: known when that page had
+one request (every page but the held one), otherwise one of its targets (the replies of equally held requests can
+overtake each other).  `exact` (the harness saw every timer run on time): exactly `min kmax |plan|` requests were made;
+otherwise (a stalled machine) a non-empty prefix suffices. -/
+def pageOk (exact sharded : Bool) (lbPlan : List PlanTarget) (kmax : Nat) (prev : Option (List (Nat × Option Nat)))
     (obs : List (Nat × Option Nat)) : Bool :=
+  let toCoord (c : Nat × Option Nat) : Option (Nat × Option Nat) := some (c.1, if sharded then c.2 else none)
   let coords : List (Option (Nat × Option Nat)) := match prev with
     | none => [none]
-    | some ps => ps.map (fun c => some (c.1, if sharded then c.2 else none))
+    | some ps => ps.map toCoord
   !obs.isEmpty && coords.any fun coord =>
     let expected := pagerPlan coord lbPlan
-    obs.length ≤ min kmax expected.length && prefixMatches sharded expected obs
+    (if exact then obs.length == min kmax expected.length else obs.length ≤ min kmax expected.length)
+      && prefixMatches sharded expected obs
 
 def runPPlan (ws : List String) (impl : String) : String :=
   match (kvOf ws "n").bind String.toNat?, (kvOf ws "sh").bind String.toNat?, (kvOf ws "max").bind String.toNat?,
@@ -507,16 +512,21 @@ def runPPlan (ws : List String) (impl : String) : String :=
     | some order =>
       -- the scripted policy: pick = the first entry, fallback = all of them (`Plan` skips the exact copies of the pick)
       let lbPlan := resolveAll (lbRaw order.head? order) []
-      let pagesStr := (impl.trimAscii.toString.drop 6).toString
       if !(impl.startsWith "pages=") then impl  -- e2e-skip / bad-case lines of the harness are not judged
-      else match (pagesStr.splitOn "/").mapM parseObsPage with
-        | some [p0, p1, p2] =>
-          let sharded := sh > 0
-          let k (j : Nat) := if j == slow then 1 + mx else 1
-          if !pageOk sharded lbPlan (k 0) none p0 then "REJECT page 0 is not a prefix of the load-balancing plan"
-          else if !pageOk sharded lbPlan (k 1) (some p0) p1 then "REJECT page 1 is not a prefix of pagerPlan"
-          else if !pageOk sharded lbPlan (k 2) (some p1) p2 then "REJECT page 2 is not a prefix of pagerPlan"
-          else impl
+      else match words impl with
+        | [pagesW, timingW] =>
+          let pagesStr := (pagesW.drop 6).toString
+          let exact := timingW == "timing=ok"
+          if !exact && timingW != "timing=stalled" then "REJECT unparsable" else
+          match (pagesStr.splitOn "/").mapM parseObsPage with
+          | some [p0, p1, p2] =>
+            let sharded := sh > 0
+            let k (j : Nat) := if j == slow then 1 + mx else 1
+            if !pageOk exact sharded lbPlan (k 0) none p0 then "REJECT page 0 is not the load-balancing plan's head"
+            else if !pageOk exact sharded lbPlan (k 1) (some p0) p1 then "REJECT page 1 is not what pagerPlan gives"
+            else if !pageOk exact sharded lbPlan (k 2) (some p1) p2 then "REJECT page 2 is not what pagerPlan gives"
+            else impl
+          | _ => "REJECT unparsable"
         | _ => "REJECT unparsable"
   | _, _, _, _, _ => "bad-case"
 
